@@ -119,6 +119,14 @@ def programs_for_schema(tier):
     progs.append(("lists+len(String)", [cls["VarAssign"](name="n", expr="static_cast<int>(__redu_len(txt))"), cls["VarAssign"](name="n", expr="static_cast<int>(__redu_len(xs))"), cls["ExprStmt"](expr="__redu_list_append(xs, n)")], [],
                   {"helpers": {"list", "len"}, "global_decls": gs + [gl[0]]}))
     progs.append(("lists-only", [cls["ExprStmt"](expr="__redu_list_append(xs, 4)")], [], {"helpers": {"list"}, "global_decls": [gl[0]]}))
+    # several library-backed devices in one sketch, both declaration orders (each needs its own header and object)
+    def _lcd(kind, nm):
+        if kind == "i2c":
+            return cls["LCDDecl"](name=nm, cols=16, rows=2, interface="i2c", i2c_addr=39)
+        return cls["LCDDecl"](name=nm, cols=16, rows=2, interface="parallel", rs=12, en=11, d4=5, d5=4, d6=3, d7=2, backlight_pin=None)
+    for order in (("parallel", "i2c"), ("i2c", "parallel")):
+        decls = [_lcd(k_, f"lcd{i_}") for i_, k_ in enumerate(order)]
+        progs.append((f"LCD {'+'.join(order)}+Servo", decls + [cls["ServoDecl"](name="sv", pin=9)] + [cls["LCDClear"](name="lcd0"), cls["LCDClear"](name="lcd1"), cls["ServoWrite"](name="sv", angle="H_angle")], [], {}))
     # button with a callback declared as function
     cb = cls["FunctionDef"](name="on_press", params=[], body=[S(ms=1)], return_type="void")
     progs.append(("Button+callback", [l2.decl_node("Button", on_click="on_press")], [cls["ButtonPoll"](name="dev")], {"functions": [cb]}))
